@@ -46,6 +46,19 @@ def main():
             return " ".join(str(x or "").split()).replace("|", "\\|")[:420]
         out.append("| %s | %s | %s | %s | %s | %s |" % (os.path.basename(os.path.dirname(m)), j["property"], cell(j.get("summary")),
                                                      cell(j.get("needs")), cell(j.get("caught_by")), cell(j.get("history"))))
+    out.append("")
+    out.append("### 11.4b Behaviour-preserving refactorings and how the checks react (generated from `refactorings/*/meta.json`)\n")
+    out.append("Re-run one with `tools/refactortest.py refactorings/<id>` (applies the patch to a scratch copy and runs the listed checks).\n")
+    out.append("| id | function | rewrite | checks that stay green | checks that report `no-failing-input-found` | note |")
+    out.append("|----|----|----|----|----|----|")
+    for m in sorted(glob.glob(os.path.join(V, "refactorings/*/meta.json"))):
+        j = json.load(open(m))
+        def cell(x):
+            return " ".join(str(x or "").split()).replace("|", "\\|")[:300]
+        out.append("| %s | %s | %s | %s | %s | %s |" % (os.path.basename(os.path.dirname(m)), cell(j.get("function")), cell(j.get("summary")),
+                                                     " ".join(j.get("checks_expected_green", [])),
+                                                     " ".join(j.get("checks_reporting_no_failing_input_found", [])) or "none",
+                                                     cell(j.get("history"))))
     text = "\n".join(out) + "\n"
     p = os.path.join(V, "DESIGN.md")
     s = open(p).read()
